@@ -13,6 +13,13 @@ fn per_type(f8: fn(bool) -> Vec<CellDef>, f16: fn(bool) -> Vec<CellDef>, f32: fn
 pub fn cells(prop: &str, t: bool, dir: &str) -> Vec<CellDef> {
     match prop {
         "C11" => vpchecks::elem::c11(dir),
+        "C17" => {
+            let mut v = vpchecks::spell::c17_p8(t);
+            v.extend(vpchecks::spell::c17_p16(t));
+            v.extend(vpchecks::spell::c17_p32(t));
+            v.extend(vpchecks::spell::c17_types());
+            v
+        }
         "C01" => per_type(c01::<P8E0>, c01::<P16E1>, c01::<P32E2>, t),
         "C02" => per_type(c02::<P8E0>, c02::<P16E1>, c02::<P32E2>, t),
         "C03" => per_type(c03::<P8E0>, c03::<P16E1>, c03::<P32E2>, t),
